@@ -14,6 +14,8 @@ package ast
 
 import (
 	"sync"
+
+	"github.com/ajitpratap0/GoSQLX/pkg/models"
 )
 
 // Pool configuration constants control cleanup behavior to prevent resource exhaustion.
@@ -355,6 +357,9 @@ func ReleaseAST(ast *AST) {
 
 	// Reset comments but keep capacity
 	if cap(ast.Comments) > 0 {
+		for i := range ast.Comments {
+			ast.Comments[i] = models.Comment{}
+		}
 		ast.Comments = ast.Comments[:0]
 	}
 
@@ -412,13 +417,11 @@ func PutInsertStatement(stmt *InsertStatement) {
 			PutExpression(stmt.Values[i][j])
 			stmt.Values[i][j] = nil
 		}
-		stmt.Values[i] = stmt.Values[i][:0]
+		stmt.Values[i] = nil
 	}
 
-	// Reset slices but keep capacity
-	stmt.Columns = stmt.Columns[:0]
-	stmt.Values = stmt.Values[:0]
-	stmt.TableName = ""
+	// Reset every field; keep the capacity of the two pooled slices
+	*stmt = InsertStatement{Columns: stmt.Columns[:0], Values: stmt.Values[:0]}
 
 	// Return to pool
 	insertStmtPool.Put(stmt)
@@ -444,10 +447,8 @@ func PutUpdateStatement(stmt *UpdateStatement) {
 	}
 	PutExpression(stmt.Where)
 
-	// Reset fields
-	stmt.Assignments = stmt.Assignments[:0]
-	stmt.Where = nil
-	stmt.TableName = ""
+	// Reset every field; keep the capacity of the pooled slice
+	*stmt = UpdateStatement{Assignments: stmt.Assignments[:0]}
 
 	// Return to pool
 	updateStmtPool.Put(stmt)
@@ -467,9 +468,8 @@ func PutDeleteStatement(stmt *DeleteStatement) {
 	// Clean up expressions
 	PutExpression(stmt.Where)
 
-	// Reset fields
-	stmt.Where = nil
-	stmt.TableName = ""
+	// Reset every field
+	*stmt = DeleteStatement{}
 
 	// Return to pool
 	deleteStmtPool.Put(stmt)
@@ -549,16 +549,11 @@ func PutSelectStatement(stmt *SelectStatement) {
 	stmt.Columns = stmt.Columns[:0]
 
 	for i := range stmt.OrderBy {
-		stmt.OrderBy[i].Expression = nil
+		stmt.OrderBy[i] = OrderByExpression{}
 	}
-	stmt.OrderBy = stmt.OrderBy[:0]
 
-	stmt.TableName = ""
-	stmt.Where = nil
-	stmt.Limit = nil
-	stmt.Offset = nil
-	stmt.Fetch = nil
-	stmt.For = nil
+	// Reset every field; keep the capacity of the two pooled slices
+	*stmt = SelectStatement{Columns: stmt.Columns[:0], OrderBy: stmt.OrderBy[:0]}
 
 	// Return to pool
 	selectStmtPool.Put(stmt)
@@ -575,6 +570,7 @@ func PutIdentifier(ident *Identifier) {
 		return
 	}
 	ident.Name = ""
+	ident.Table = ""
 	identifierPool.Put(ident)
 }
 
@@ -593,6 +589,8 @@ func PutBinaryExpression(expr *BinaryExpression) {
 	expr.Left = nil
 	expr.Right = nil
 	expr.Operator = ""
+	expr.Not = false
+	expr.CustomOp = nil
 	binaryExprPool.Put(expr)
 }
 
@@ -730,6 +728,7 @@ func PutExpression(expr Expression) {
 		switch e := current.(type) {
 		case *Identifier:
 			e.Name = ""
+			e.Table = ""
 			identifierPool.Put(e)
 
 		case *BinaryExpression:
@@ -742,6 +741,8 @@ func PutExpression(expr Expression) {
 			e.Left = nil
 			e.Right = nil
 			e.Operator = ""
+			e.Not = false
+			e.CustomOp = nil
 			binaryExprPool.Put(e)
 
 		case *LiteralValue:
@@ -761,6 +762,8 @@ func PutExpression(expr Expression) {
 			e.Over = nil
 			e.Distinct = false
 			e.Filter = nil
+			e.OrderBy = nil
+			e.WithinGroup = nil
 			functionCallPool.Put(e)
 
 		case *CaseExpression:
@@ -774,6 +777,7 @@ func PutExpression(expr Expression) {
 				if e.WhenClauses[i].Result != nil {
 					workQueue = append(workQueue, e.WhenClauses[i].Result)
 				}
+				e.WhenClauses[i] = WhenClause{}
 			}
 			if e.ElseClause != nil {
 				workQueue = append(workQueue, e.ElseClause)
@@ -839,6 +843,7 @@ func PutExpression(expr Expression) {
 				if e.Indices[i] != nil {
 					workQueue = append(workQueue, e.Indices[i])
 				}
+				e.Indices[i] = nil
 			}
 			e.Array = nil
 			e.Indices = e.Indices[:0]
@@ -990,6 +995,8 @@ func PutFunctionCall(fc *FunctionCall) {
 	fc.Over = nil
 	fc.Distinct = false
 	fc.Filter = nil
+	fc.OrderBy = nil
+	fc.WithinGroup = nil
 	functionCallPool.Put(fc)
 }
 
@@ -1010,6 +1017,7 @@ func PutCaseExpression(ce *CaseExpression) {
 	for i := range ce.WhenClauses {
 		PutExpression(ce.WhenClauses[i].Condition)
 		PutExpression(ce.WhenClauses[i].Result)
+		ce.WhenClauses[i] = WhenClause{}
 	}
 	ce.WhenClauses = ce.WhenClauses[:0]
 	PutExpression(ce.ElseClause)
@@ -1183,6 +1191,7 @@ func PutArraySubscriptExpression(ase *ArraySubscriptExpression) {
 		if ase.Indices[i] != nil {
 			PutExpression(ase.Indices[i])
 		}
+		ase.Indices[i] = nil
 	}
 	ase.Indices = ase.Indices[:0] // Clear slice but keep capacity
 	arraySubscriptExprPool.Put(ase)
